@@ -57,6 +57,7 @@ def run(tier: str, replay=None) -> int:
     beh = rc.load_behaviours()
     short = sorted(n for n, b in beh.items() if sum(len(x) for x in b) < 160 and not n.startswith("V6_"))
     compounds = sorted(n for n, b in beh.items() if len(b) > 1 and sum(len(x) for x in b) < 420)
+    longs = sorted(n for n, b in beh.items() if len(b) == 1 and 500 < len(b[0]) < 900 and not n.startswith("V6_"))
     rounds = 5 if tier == "quick" else 24
     pool_sizes = [1, 2, 3, 8, 16] if tier == "quick" else [1, 2, 3, 4, 5, 6, 7, 8, 9, 10, 11, 12, 13, 14, 15, 16]
 
@@ -78,6 +79,12 @@ def run(tier: str, replay=None) -> int:
         for nm in names:
             parts = list(beh[nm])
             tasks[nm] = parts
+        # skewed compounds: a slow (long) first part followed by a fast one, so that parts of one entry complete out of
+        # order under any task granularity (not only under the per-instruction delays injected below)
+        for k in range(3):
+            slow = beh[rng.choice(longs)][0]
+            fast = beh[rng.choice(short)][0]
+            tasks[f"SKEW_{rd}_{k}"] = [slow, fast] if k < 2 else [fast, slow, fast]
         # inject broken behaviours: whole-broken, broken later part after a good one, broken first part
         for k in range(rng.randint(1, 4)):
             kind = rng.choice(["single", "second", "first"])
